@@ -9,6 +9,11 @@ IMPORTS = "From OV Require Import Model.Vector Model.Matrix Model.MatOps Model.S
 MODEL_VO = ["Model/Solve.vo"]
 RULE = ("square systems n=1..8: dense, zero/tiny leading pivots at several steps, permutation-like, triangular, several exchanges, badly row-scaled, Wilkinson growth matrices; "
         "Rat (exact, vs Qc model), f64 and Complex<f64> (vs primitive-float model, scaled 1e-6..1e6); both solvers per system; "
+        "round four: 18 special structures (identity, scalar, diagonal, unit triangular, anti-diagonal, cyclic shift, Toeplitz, arrow, all entries +-1, "
+        "columns of equal magnitude, symmetric, last-row-dominant, gapped band, diagonal plus corners) x special right-hand sides (0, e_1, e_n, ones, "
+        "alternating, A*ones, last column) at all three element kinds (Complex: columns times 1, +-i, 0.6+0.8i, 1+i); Complex matrices of special values only; "
+        "signed zeros; whole system scaled by 2^+-k (k = 200..900 f64, half of them beyond 2^+-512 where squares leave the range; 100..300 Complex); orders 9..12 (Rat) and 9..24 (floats; ..40 thorough); "
+        "mis-shaped systems at f64 and Complex as well; "
         "distinct = distinct executor line; non-trivial = n >= 2 and nonsingular")
 TRUSTED = ["Coq 8.16.1 kernel + vm_compute", "Rust executor /verif/harness (Rat = i128 rationals)", "python driver (generators, Fraction residual oracle, comparators)",
            "hand-written Gallina model coq/Model/Solve.v tied to src/matrix/solve.rs by differential execution"]
@@ -26,7 +31,9 @@ MANIFEST = dict(
           "'solved, uniquely' at Qc, R and C (the model's own complex operators), and a 3x3 rational example with a zero leading entry and two "
           "row exchanges evaluated by vm_compute.  The model is run against the implementation on every check (Rat vs Qc exact, f64/Complex<f64> "
           "vs primitive floats; both solvers; zero/tiny pivots, permutation-like, triangular, singular and mis-shaped systems) and an independent "
-          "Fraction/float residual oracle searches for a failing input; the measured distribution of row exchanges per system is in the evidence."),
+          "Fraction/float residual oracle searches for a failing input; the measured distribution of row exchanges per system is in the evidence. "
+          "Structured families (round four): special structures x special right-hand sides, Complex entries on the axes / of unit modulus / with |re| = |im|, "
+          "signed zeros, systems scaled by 2^+-k up to k = 900, orders up to 24 (40 thorough), mis-shaped systems at every element kind."),
     note=("Float backward stability (1e-11 normwise) is searched, not proved.  The LU half of the property (solve_lu_sound, solvers_agree) "
           "rests on package c02's theorems (Proofs/Solve.v: solvers_agree_from_lu_sound composes them); here solve_lu is tied and searched. "
           "Completeness needs PivLaws (abs x = 0 <-> x = 0, x <> 0 -> 0 < |x|, not |x| < 0): MagLaws of DESIGN Appendix E is too weak. "
@@ -342,7 +349,7 @@ def gen_special(rng, tier):
             cases.append(mk('cplx', n, [complex(x, nz(0.0)) for x in A], [complex(x, nz(0.0)) for x in b], "cplx-neg-zero", n >= 2))
         else:
             cases.append(mk('f64', n, A, b, "f64-neg-zero", n >= 2))
-    # (s4) magnitudes: the whole system scaled by 2^+-k, k = 200..480 (f64; the exact solution does not change), and by 2^+-k,
+    # (s4) magnitudes: the whole system scaled by 2^+-k, k = 200..900 (f64; the exact solution does not change), and by 2^+-k,
     # k = 100..300 for Complex<f64> (inside the range where re^2 + im^2 is a normal number: not the recorded finding);
     # well-conditioned patterns with row exchanges.  "whatever the magnitudes" is part of the statement.
     g = rng.fork("extreme-scale")
@@ -355,7 +362,9 @@ def gen_special(rng, tier):
             if nonsingular(A, n): break
         if A is None or not nonsingular(A, n): continue
         cplx = t % 3 == 2
-        k = g.range(100, 300) if cplx else g.range(200, 480)
+        # f64: half of the exponents beyond 2^+-512, where the SQUARE of an entry leaves the f64 range although every quantity the
+        # elimination needs (entries, quotients, products of a quotient with an entry) stays inside it
+        k = g.range(100, 300) if cplx else (g.range(520, 900) if t % 2 == 0 else g.range(200, 519))
         sc = 2.0 ** (k if g.chance(1, 2) else -k)
         b = [fval(g) for _ in range(n)]
         if cplx:
@@ -363,7 +372,7 @@ def gen_special(rng, tier):
             b = [complex(x, fval(g)) * sc for x in b]
             cases.append(mk('cplx', n, A, b, "cplx-scaled-2^%s" % ("+k" if sc > 1 else "-k"), n >= 2))
         else:
-            # the right-hand side at the scale of A (x = O(1)) or at scale 1 (x tiny/huge but representable: |k| <= 480)
+            # the right-hand side at the scale of A (x = O(1)) or at scale 1 (x tiny/huge but representable: |k| <= 900)
             bs = sc if g.chance(2, 3) else 1.0
             cases.append(mk('f64', n, [x * sc for x in A], [x * bs for x in b], "f64-scaled-2^%s" % ("+k" if sc > 1 else "-k"), n >= 2))
     # (s5) orders above 8 (a blocked / unrolled loop shows its remainder handling only from a few blocks on): Rat 9..12,
